@@ -348,6 +348,22 @@ def run(ctx) -> None:
             res.case(("concurrent", i))
             if c[:2] != ref["filename"][:2] or c[2].strip():
                 res.violate("concurrent runs sharing one directory disagree with a solo run", {"kind": "concurrent"}, {"how": how + " (several at once)", "observed": c[1][:300], "stderr": c[2][-300:]})
+        # the same with side outputs: every run asks for its OWN statistics file; whatever intermediate files a run uses must be its own too
+        n_conc = 6 if ctx.quick else 12
+        with ThreadPoolExecutor(n_conc) as ex:
+            conc2 = list(ex.map(lambda k_: cli(d, [*names, "--sort", "filename", "--timing-stats", f"stats_{k_}.json"]), range(n_conc)))
+        for i, c in enumerate(conc2):
+            res.case(("concurrent-timing-stats", i))
+            made = (d / f"stats_{i}.json").exists()
+            if c[:2] != ref["filename"][:2] or c[2].strip() or not made:
+                res.violate(
+                    "concurrent runs in one directory, each with its own --timing-stats file, disagree with a solo run (or lose their statistics file)",
+                    {"kind": "concurrent", "with": "timing-stats"},
+                    {"how": how + f" --timing-stats stats_<k>.json, {n_conc} at once", "observed": c[1][:300], "stderr": c[2][-400:], "stats_file_written": made},
+                )
+                break
+        for k_ in range(n_conc):
+            (d / f"stats_{k_}.json").unlink(missing_ok=True)
 
         # ---- several runs in one process
         argv = [*names, "--enable-all", "--quiet"]
